@@ -43,6 +43,9 @@ type c06Case struct {
 	// NeverResume: a stalled consumer stays stalled after the termination event (a peer that never reads again). Only
 	// with Term=initCancel, where the handler has to return regardless: the outgoing stream dies with the initiator.
 	NeverResume bool `json:"never_resume,omitempty"`
+	// SrcIgnoresHalfClose: the source does not end the RPC when the proxy half-closes the stream towards it (a Temporal
+	// source does, which is what the default models); the handler has to return regardless, after its grace period
+	SrcIgnoresHalfClose bool `json:"src_ignores_half_close,omitempty"`
 }
 
 var c06TermKinds = []string{"srcEOF", "srcErr", "srcErrCanceled", "initEOF", "initErr", "initCancel", "initSendFail", "srcSendFail", "srcSendEOF", "srcUnknownKind", "initUnknownKind", "openFail"}
@@ -112,6 +115,12 @@ func c06Run(t *testing.T, c c06Case) (out c06Outcome, verr error, herr error) {
 			if v := cs.OutgoingMD.Get("x-custom"); len(v) != 1 || v[0] != "keep-me" {
 				verr = fmt.Errorf("LCM mode: unrelated metadata lost: %v", v)
 			}
+		}
+		if !c.SrcIgnoresHalfClose {
+			// a source that sees the half-close ends the RPC (after what it had received before)
+			cs.mu.Lock()
+			cs.onCloseSend = func() { cs.PushEOF() }
+			cs.mu.Unlock()
 		}
 		var srcSent []*vfResp // pushed by the source
 		var ackSent []*vfReq  // pushed by the initiator
@@ -217,7 +226,7 @@ func c06Run(t *testing.T, c c06Case) (out c06Outcome, verr error, herr error) {
 			cs.Unstall()
 		}
 		wait()
-		time.Sleep(2 * time.Second)
+		time.Sleep(7 * time.Second)
 		wait()
 		select {
 		case <-done:
@@ -264,7 +273,7 @@ func c06Run(t *testing.T, c c06Case) (out c06Outcome, verr error, herr error) {
 		if verr == nil {
 			// (c) ending together
 			if !returned {
-				verr = fmt.Errorf("3 virtual seconds after %s (at step %d) the stream handler has not returned", c.Term, at)
+				verr = fmt.Errorf("8 virtual seconds after %s (at step %d) the stream handler has not returned", c.Term, at)
 			} else if cs.ctx.Err() == nil {
 				verr = fmt.Errorf("after %s the handler returned but the source-side stream was left open (context not cancelled)", c.Term)
 			}
@@ -296,7 +305,7 @@ func c06Fail(t interface{ Fatalf(string, ...any) }, st *vfshared.Stats, part str
 	t.Fatalf("C06 violated: %v (replay %s)", err, p)
 }
 
-const c06Rule = "scripts of source->initiator messages and initiator->source sync states in a generated interleaving with per-direction consumer stalls and in-flight batches (steps that do not let the proxy quiesce), plus ONE termination event (source EOF / source error / initiator EOF / initiator error / initiator context cancelled / send failure on either side / message of unknown kind from either side / stream-open failure) placed at every position (systematic part) or randomly; real handleStream (default and LCM mode) in a virtual-time bubble; oracle: each side received a pointer-equal prefix of what the other sent; a direction that ends by its own EOF/error after its last message delivered everything (unless the opposite consumer is stalled); within 3 virtual seconds the handler returned and the source-side stream context is cancelled; no goroutine of the forwarder remains (bubble exit); non-trivial = the termination lands with messages in flight in both directions; distinct = distinct (script, termination, position, mode)"
+const c06Rule = "scripts of source->initiator messages and initiator->source sync states in a generated interleaving with per-direction consumer stalls and in-flight batches (steps that do not let the proxy quiesce), plus ONE termination event (source EOF / source error / initiator EOF / initiator error / initiator context cancelled / send failure on either side / message of unknown kind from either side / stream-open failure) placed at every position (systematic part) or randomly; real handleStream (default and LCM mode) in a virtual-time bubble; oracle: each side received a pointer-equal prefix of what the other sent; a direction that ends by its own EOF/error after its last message delivered everything (unless the opposite consumer is stalled); within 8 virtual seconds the handler returned (the forwarder gives a source 5 s to end the stream after a clean half-close of the initiator) and the source-side stream context is cancelled; no goroutine of the forwarder remains (bubble exit); non-trivial = the termination lands with messages in flight in both directions; distinct = distinct (script, termination, position, mode)"
 
 func c06Gen(t *rapid.T) c06Case {
 	c := c06Case{Mode: rapid.SampledFrom([]string{"default", "default", "lcm"}).Draw(t, "mode"), L: 4, R: 6, Shard: rapid.Int32Range(1, 12).Draw(t, "shard")}
@@ -312,6 +321,9 @@ func c06Gen(t *rapid.T) c06Case {
 		c.NeverResume = true
 		c.Steps = append(append(append([]c06Step{}, c.Steps[:c.TermAt]...), c06Step{K: "stallSrc"}, c06Step{K: "ack", NoWait: true}, c06Step{K: "ack", NoWait: true}), c.Steps[c.TermAt:]...)
 		c.TermAt += 3
+	}
+	if c.Term == "initEOF" && rapid.IntRange(0, 2).Draw(t, "srcIgnoresHalfClose") == 0 {
+		c.SrcIgnoresHalfClose = true
 	}
 	if rapid.Bool().Draw(t, "burst") {
 		// a burst in both directions right before the termination event, not quiesced
